@@ -185,7 +185,8 @@ func buildFullStyle(k int) *astisub.StyleAttributes {
 // comment: content that a timing transformation has no business with
 func decorate(it *astisub.Item, k int) *astisub.Item {
 	it.Index = k%4 + 1 // numbers repeat, as in a list merged from two numbered files
-	if k%4 == 2 {
+	if k%16 == 2 || k%16 == 11 {
+		// (one cue in eight: comparing every field of the attributes is the costly part of a snapshot)
 		it.InlineStyle = fullStyle(k)
 		if len(it.Lines) > 0 && len(it.Lines[0].Items) > 0 {
 			it.Lines[0].Items[0].InlineStyle = fullStyle(k + 1)
